@@ -33,7 +33,7 @@ for c in CHECKS:
         "evidence_file": f"/verif/evidence/{pid}.json",
         "replay_cmd_template": "cat {path}   # the file names the harness/driver commands that replay the case",
         "engine": "coq",
-        "level_claimed": {"category": "proof", "text": c["text"], "design_ref": c.get("design_ref", "DESIGN.md section 7 " + pid)},
+        "level_claimed": {"category": c.get("category", "proof"), "text": c["text"], "design_ref": c.get("design_ref", "DESIGN.md section 7 " + pid)},
         "level_note": c["note"],
         "technique": c["technique"],
     })
